@@ -124,7 +124,11 @@ theorem step_cbLoaded (A : System.Arith R) (s : St R) (o : Op R) (hl : s.cbLoade
 theorem cbApply_keeps_open (c : CB.Sys (Arr CB.Cnt)) (m : CbMove) (k : Nat) (res : String) (D : Nat)
     (h : OpenUntil k res D c.brs) (hnow : c.now < D) : OpenUntil k res D (cbApply c m).1.brs := by
   rw [cbApply_eq_step]
-  exact (step_keeps_open CB.laOps c m.toOp k res D h hnow).1
+  -- `step_keeps_open` excludes the rule-loading ops of the breaker model's language; a move is never one of them
+  have hnl : ∀ rs : List CB.Rule, m.toOp ≠ CB.Op.load rs ∧ ∀ x : String, m.toOp ≠ CB.Op.loadRes x rs := by
+    intro rs
+    cases m <;> exact ⟨fun e => (by cases e), fun x e => (by cases e)⟩
+  exact (step_keeps_open CB.laOps c m.toOp k res D h hnow hnl).1
 
 theorem cbApply_now (c : CB.Sys (Arr CB.Cnt)) (m : CbMove) :
     (cbApply c m).1.now = match m with | .clock t => t | _ => c.now := by
